@@ -30,6 +30,8 @@ Undef == [t |-> "undef"]
 Lit(text, val) == [k |-> "lit", text |-> text, val |-> val]
 AllLeaves == { Lit("0", IntV(0)), Lit("1", IntV(1)), Lit("2", IntV(2)), Lit("3", IntV(3)), Lit("7", IntV(7)),
                Lit("0x10", IntV(16)), Lit("0xff", IntV(255)),
+               \* the other spellings Python (and data/grammar.lark) has for an integer: digit separators, upper-case prefix
+               Lit("1_0", IntV(10)), Lit("0X10", IntV(16)), Lit("0x_1f", IntV(31)),
                Lit("0.5", FltV(1, 2)), Lit("1.5", FltV(3, 2)), Lit("2.0", FltV(2, 1)),
                Lit("'a'", StrV("a")), Lit("\"b\"", StrV("b")), Lit("'12'", StrN("12", NumR(12))) }
 SmallLeaves == { Lit("2", IntV(2)), Lit("7", IntV(7)), Lit("0x10", IntV(16)), Lit("1.5", FltV(3, 2)), Lit("'a'", StrV("a")) }
